@@ -6,6 +6,8 @@ import PyYetiVerif.Model.ExtremaPsd
 import PyYetiVerif.Model.ExtremaTree
 import PyYetiVerif.Model.ExtremaHeap
 import PyYetiVerif.Model.ExtremaLabels
+import PyYetiVerif.Model.ExtremaSplit
+import PyYetiVerif.Model.ApplyUfDef
 import PyYetiVerif.Model.Srs
 import PyYetiVerif.Model.SrsExt
 /-! Line protocol for C16.  Values are integers, `nan` = NaN; labels are tokens without blanks;
@@ -60,7 +62,9 @@ Row labels that differ between the events (whole tables, `Model/ExtremaLabels.le
   labform d nc ; j case useExt hasX hasMx n lab₁…lab_n (hv hx hlab lv lx llab)×n ; …   (one segment per event)
         → `value-error j` | `key-error j` | `none` |
           `lab… | hasX | hv hx hlab lv lx llab , mx… , mn… , mx_x… , mn_x… | (next row) …`
-  split n ; case|- mx mn mx_x mn_x ; …  (one segment per column)  → `case mx mx_x mn mn_x , …` | `type-error`
+  split ; case|- mx mn mx_x mn_x ; …  (one segment per column)  → `case mx mn mx_x mn_x , …` | `type-error`
+  ufdef ; -|(p/q|none)×4 ; -|(p/q|none)×4     (defaults['uf_reds'], the uf_reds argument; `-` = absent)
+        → the four factors `DR_Def.add` stores
 -/
 open PyYetiVerif.Extrema PyYetiVerif.ApplyUf PyYetiVerif.ApplyUfFull PyYetiVerif.ExtremaPsd
 open PyYetiVerif.ExtremaTree PyYetiVerif.ExtremaHeap
@@ -459,6 +463,28 @@ def mergeListsOp (a b : String) : String :=
   let fn := fun (l : List Nat) => " ".intercalate (l.map toString)
   " ".intercalate r.1 ++ " | " ++ fn r.2.1 ++ " | " ++ fn r.2.2
 
+def splitOp (body : List String) : String :=
+  match body.mapM (fun s => match toks s with
+      | [c, a, b, x, y] => do
+        pure ((if c == "-" then none else some c), (← pv a), (← pv b), (← pv x), (← pv y))
+      | _ => none) with
+  | none => "bad-op"
+  | some cols =>
+    match PyYetiVerif.ExtremaSplit.splitRow (cols.map (·.1)) (cols.map (·.2.1)) (cols.map (·.2.2.1))
+        (cols.map (·.2.2.2.1)) (cols.map (·.2.2.2.2)) with
+    | none => "type-error"
+    | some parts => " , ".intercalate (parts.map fun p => s!"{p.1} {fv p.2.mx} {fv p.2.mn} {fv p.2.mxx} {fv p.2.mnx}")
+
+def pUfTuple (s : String) : Option (Option (List (Option Rat))) :=
+  match toks s with
+  | ["-"] => some none
+  | ts => (ts.mapM fun t => if t == "none" then some none else (pRat t).map some).map some
+
+def ufDefOp (a b : String) : String :=
+  match pUfTuple a, pUfTuple b with
+  | some d, some g => " ".intercalate ((PyYetiVerif.ApplyUfDef.addUfReds d g).map fRat)
+  | _, _ => "bad-op"
+
 def answer (line : String) : String :=
   let segs := (line.splitOn ";").map (·.trimAscii.toString)
   match segs with
@@ -548,6 +574,8 @@ def answer (line : String) : String :=
     | ["treenonbases"], body => treeOp "treenonbases" 0 body
     | ["heap", c], body => heapOp (c == "1") body
     | ["mergelists"], [a, b] => mergeListsOp a b
+    | ["split"], body => splitOp body
+    | ["ufdef"], [a, b] => ufDefOp a b
     | ["labform", d, nc], body =>
       match d.toNat?, nc.toNat? with
       | some d, some nc => labFormOp d nc body
